@@ -132,8 +132,12 @@ def write_md(tmpdir, xml):
     h = hashlib.sha1(xml.encode('utf-8')).hexdigest()[:16]
     p = os.path.join(tmpdir, 'md-%s.xml' % h)
     if not os.path.exists(p):
-        with open(p, 'w', encoding='utf-8') as f:
+        # several worker processes may want the same document at the same moment: never let one of them read a file
+        # another one is still writing
+        t = '%s.%d.tmp' % (p, os.getpid())
+        with open(t, 'w', encoding='utf-8') as f:
             f.write(xml)
+        os.replace(t, p)
     return p
 
 
